@@ -20,7 +20,7 @@ PROP = {
                   "harness and called on each of the 34 implementing types (5876 methods per backend) with result types fixed by ascription; each is evaluated on fixed and "
                   "generated inputs (pairwise-distinct lanes, equal lanes, NaNs with distinct quiet/signalling payloads, signed zeros, integer extremes, and for Vec3A every "
                   "hidden-lane class) and compared bit-for-bit with the lanes the name spells; setters additionally satisfy read-back and write-back identities. "
-                  "SSE2, scalar-math and nightly core-simd builds. Exhaustive over names and types, exploration over lane values.",
+                  "SSE2, scalar-math and nightly core-simd builds. Exhaustive over names and types, exploration over lane values. Every getter is also called through its swizzle trait (an inherent method of the same name shadows it in method syntax), and a nightly -Zrandomize-layout build shuffles every struct layout the language does not fix.",
     "level_note": "Trusted: to_array/from_array/from_vec4/new of the vector types for moving lanes in and out (C17 checks those), rustc moving f32/f64 bit patterns unchanged on x86_64, the harness. "
                   "NEON/wasm32 swizzle files cannot be built here.",
     "design_ref": "DESIGN.md section 5 C16",
